@@ -344,6 +344,8 @@ class CallMixin(object):
             lo.one_shot = True  # an iterator on Python 3, a list on Python 2
             self.event("lazy_iterator", node, module, st, what="%s() result" % name, list=None)
             return self.alloc(st, lo)
+        if name in ("input", "raw_input") and getattr(self, "input_hook", None) is not None:
+            return self.input_hook(st, node, module)
         if name == "print":
             self.event("print", node, module, st)
             return Const(None)
@@ -1291,7 +1293,122 @@ class StmtMixin(object):
         return rest
 
     def s_While(self, s, st, env, module):
-        raise AnalysisError("E5.stmt", "while loop on an evaluated path", s, module)
+        """Retry loops only (`while True:` around a read of fresh input), when a rule enabled the
+        summary: one symbolic iteration.  The paths that go round again must leave every heap object
+        unchanged and every name they bind must be rebound before it is read (so the next iteration
+        starts from the same state with fresh input); the loop's effect is then the join of its
+        break paths.  Anything else is not interpreted."""
+        if not getattr(self, "retry_loops", False):
+            raise AnalysisError("E5.stmt", "while loop on an evaluated path", s, module)
+        test = self.eval(st, env, s.test)
+        if self.decide(st, self.truth(st, test, s.test)) is not True or s.orelse:
+            raise AnalysisError("E5.stmt", "while loop whose condition is not constantly true", s, module)
+        # names bound by statements of the body (comprehension variables are scoped to the comprehension)
+        bound = set()
+
+        def collect(n):
+            for c in ast.iter_child_nodes(n):
+                if isinstance(c, (ast.ListComp, ast.GeneratorExp, ast.SetComp, ast.DictComp, ast.Lambda, ast.FunctionDef)):
+                    continue
+                if isinstance(c, ast.Name) and isinstance(c.ctx, ast.Store):
+                    bound.add(c.id)
+                collect(c)
+
+        collect(s)
+        before = st.copy()
+        res = self.exec_block(s.body, st, env)
+        exits = []
+        outs = []
+        again = []
+        for o in res:
+            if o.status == "break":
+                exits.append(o.state)
+            elif o.status in ("normal", "continue"):
+                changed = self.heap_difference(before, o.state, env, bound)
+                if changed:
+                    self.event("retry_state_change", s, module, o.state, what=changed)
+                again.append(o.state)
+            else:
+                outs.append(o)
+        if again and bound and not getattr(self, "_in_stale_probe", False):
+            # does the next iteration read a name this one bound?  Probe: a second symbolic
+            # iteration in which those names hold a marker; nothing it produces may depend on it
+            probe = again[0].copy()
+            penv = probe.heap[env.id]
+            for nm in bound:
+                if nm in penv.vars:
+                    penv.vars[nm] = Opaque("stale:" + nm)
+            n_ev = len(self.events)
+            self._in_stale_probe = True
+            saved_hook = getattr(self, "input_hook", None)
+            try:
+                if saved_hook is not None:
+                    self.input_hook = lambda st_, node_, mod_: saved_hook(st_, node_, mod_, probe=True)
+                try:
+                    pres = self.exec_block(s.body, probe, env)
+                except Dead:
+                    pres = []
+            finally:
+                self._in_stale_probe = False
+                self.input_hook = saved_hook
+            stale = None
+            for o in pres:
+                if o.status != "break":
+                    continue
+                for i, ob in o.state.heap.items():
+                    vals = []
+                    if ob.kind in ("list", "set"):
+                        vals = [x for _, x in ob.items] + [g for g, _ in ob.items]
+                    elif ob.kind == "map":
+                        vals = [x for _, x in ob.entries.values()] + [p_ for p_, _ in ob.entries.values()]
+                    elif ob.kind == "inst":
+                        vals = list(ob.attrs.values())
+                    elif ob.kind == "env" and i != env.id:
+                        vals = list(ob.vars.values())
+                    for x in vals:
+                        if isinstance(x, Term) and any(d.startswith("opaque:stale:") for d in deps_of(x)):
+                            stale = sorted(d[len("opaque:stale:") :] for d in deps_of(x) if d.startswith("opaque:stale:"))[0]
+                for c in o.state.pc:
+                    if isinstance(c, Term) and any(d.startswith("opaque:stale:") for d in deps_of(c)):
+                        stale = sorted(d[len("opaque:stale:") :] for d in deps_of(c) if d.startswith("opaque:stale:"))[0]
+            del self.events[n_ev:]
+            if stale:
+                self.event("retry_state_change", s, module, st, what="the value of %s from a rejected iteration is read by the next one" % stale)
+        if not exits and not outs:
+            self.event("retry_never_exits", s, module, st)
+            raise Dead()
+        if exits:
+            cur = exits[0]
+            for x in exits[1:]:
+                cur, _ = self.merge_states(cur, x, None, None)
+            outs.append(Outcome("normal", cur))
+        return outs
+
+    def heap_difference(self, a, b, env, ignore_names):
+        """Description of the first heap object (other than the loop-local names of the current
+        frame) that differs between two states, or None."""
+        for i, oa in a.heap.items():
+            ob = b.heap.get(i)
+            if ob is None:
+                continue
+            if oa.kind != ob.kind:
+                return "an object changes kind"
+            if oa.kind in ("list", "set"):
+                if len(oa.items) != len(ob.items) or any(not same(x, y) for (_, x), (_, y) in zip(oa.items, ob.items)):
+                    return "a list is modified on a path that asks again"
+            elif oa.kind == "map":
+                if oa.order != ob.order or any(not same(oa.entries[k][1], ob.entries[k][1]) for k in oa.order):
+                    return "a dict is modified on a path that asks again"
+            elif oa.kind == "inst":
+                if set(oa.attrs) != set(ob.attrs) or any(not same(oa.attrs[k], ob.attrs[k]) for k in oa.attrs):
+                    return "an object attribute is modified on a path that asks again"
+            elif oa.kind == "env":
+                for k in set(oa.vars) | set(ob.vars):
+                    if i == env.id and k in ignore_names:
+                        continue
+                    if k not in oa.vars or k not in ob.vars or not same(oa.vars[k], ob.vars[k]):
+                        return "variable %s is modified on a path that asks again" % k
+        return None
 
     def s_Try(self, s, st, env, module):
         n0 = len(self.events)
